@@ -21,14 +21,25 @@ TRUSTED = [
     "g++ 12 / ASan + hook H2 (pool slot poisoning) for 'a read through a pointer to a freed table entry is reported'",
 ]
 ASSUME = [
-    "the Debug stream is off (with it `$name` on an empty group throws NoTargetException after producing NULL)",
+    "output streams: Output and Error always attached; Debug attached in about a third of the cases (its text is not compared), Warn detached in about an eighth (no warning lines, everything else compared), developer mode in about a seventh (source-position lines dropped by the harness)",
     "objects are SimpleEntity instances created by `spawn` / `new`; raw AddListener/RemoveListener calls from a host (which can register an object under a name it does not bear) are outside the property's quantifier",
     "an access through a pointer to a freed table entry is undefined behaviour: the model answers `ub`, the case ends there, and whatever the implementation does on that line is accepted (a sanitizer report on it is recorded as the D16 finding)",
 ]
 
 
 def header(cfg):
-    return "universe snapshot=%d fieldfan=%d max=%d" % (cfg["snapshot"], cfg["fieldfan"], MAXOBJ)
+    """snapshot / fieldfan: which code the model follows (from the probes); dbg / warn / dev: which
+    output streams the harness attaches to the context for this case (and the model is told)"""
+    return "universe snapshot=%d fieldfan=%d max=%d dbg=%d warn=%d dev=%d" % (
+        cfg["snapshot"], cfg["fieldfan"], MAXOBJ, cfg.get("dbg", 0), cfg.get("warn", 1), cfg.get("dev", 0))
+
+
+def pick_streams(rng):
+    """about a third of the cases run with a Debug stream attached (OP_UN_TARGETNAME then reports a
+    missing target), some without a Warn stream (warnings are not printed; nothing else may change),
+    some in developer mode (source positions in front of warnings)"""
+    return {"dbg": 1 if rng.random() < 0.35 else 0, "warn": 0 if rng.random() < 0.12 else 1,
+            "dev": 1 if rng.random() < 0.15 else 0}
 
 
 # ---------------------------------------------------------------------------------------------
@@ -347,6 +358,7 @@ class ScriptRunner:
         self.ub_silent = 0
         self.ub_limit = 60 if ctx.tier == "quick" else 400
         self.ub_run = 0
+        self.stream_hist = {}     # cases per output-stream configuration
         self.stmt_hist = {}       # statement kinds (top level) and `h:`-prefixed kinds inside handlers
         self.out_hist = {}        # kinds of printed tokens in the model's answers (errors, array kinds, ...)
 
@@ -375,7 +387,13 @@ class ScriptRunner:
         if not named:
             return 0
         rng = self.ctx.rng("render")
-        rendered = [(name, st, render_case(rng, self.cfg, st)) for name, st in named]
+        rendered = []
+        for item in named:
+            name, st = item[0], item[1]
+            streams = item[2] if len(item) > 2 and item[2] is not None else pick_streams(rng)
+            key = "dbg=%d,warn=%d,dev=%d" % (streams.get("dbg", 0), streams.get("warn", 1), streams.get("dev", 0))
+            self.stream_hist[key] = self.stream_hist.get(key, 0) + 1
+            rendered.append((name, st, render_case(rng, dict(self.cfg, **streams), st)))
         model = common.run_model(AREA, [l for _, _, ls in rendered for l in ls])
         pos, batch, ubs = 0, [], []
         for name, st, ls in rendered:
@@ -503,10 +521,10 @@ def check(ctx):
     host_corpus, script_corpus = [], []
     for name, obj in corpus_cases():
         if "statements" in obj:
-            script_corpus.append((name, [t.split(" ") for t in obj["statements"]]))
+            script_corpus.append((name, [t.split(" ") for t in obj["statements"]], obj.get("streams", {})))
         else:
             host_corpus.append((name, [header(cfg)] + [l for l in obj["lines"] if not l.startswith("universe")]))
-    bad += runner.run([("probe:field", FIELD_PROBE), ("probe:value", VALUE_PROBE)])
+    bad += runner.run([("probe:field", FIELD_PROBE, {}), ("probe:value", VALUE_PROBE, {})])
     bad += d.run_batch(host_corpus)
     bad += runner.run(script_corpus)
     # host level
@@ -514,7 +532,7 @@ def check(ctx):
     ncases, length = (300, 120) if quick else (8000, 400)
     batch = []
     for i in range(ncases):
-        batch.append(("host:%d" % i, gen_host(rng, rng.choice([8, 30, length]), cfg, rng.choice([1, 2, 4]))))
+        batch.append(("host:%d" % i, gen_host(rng, rng.choice([8, 30, length]), dict(cfg, **pick_streams(rng)), rng.choice([1, 2, 4]))))
         if len(batch) == 200:
             bad += d.run_batch(batch); batch = []
     bad += d.run_batch(batch)
@@ -536,12 +554,14 @@ def check(ctx):
     ctx.stats["exhaustive_script_histories"] = len(exs)
     ctx.stats["exhaustive_script_alphabet"] = nalpha
     for i in range(0, len(exs), 500):
-        bad += runner.run([("exh-script:%d" % (i + j), c) for j, c in enumerate(exs[i:i + 500])])
+        bad += runner.run([("exh-script:%d" % (i + j), c, [{}, {"dbg": 1}, {"dbg": 1, "warn": 0}, {"dev": 1}][(i + j) % 4])
+                           for j, c in enumerate(exs[i:i + 500])])
     ctx.stats["script_cases"] = d.cases - host_cases
     ctx.stats["ub_cases_model"] = runner.ub_cases
     ctx.stats["ub_cases_run_on_impl"] = runner.ub_run
     ctx.stats["ub_cases_sanitizer_report"] = len(runner.ub_crashed)
     ctx.stats["ub_cases_silent"] = runner.ub_silent
+    ctx.stats["script_cases_per_stream_configuration"] = runner.stream_hist
     ctx.stats["script_statement_histogram"] = runner.stmt_hist
     ctx.stats["script_output_token_histogram"] = runner.out_hist
     ctx.oblige("correspondence harness/target.cpp == Target model (variant %s) on %d histories" % (
